@@ -173,7 +173,7 @@ fn main() {
      another DID; expected document rendered by the harness model. distinct = (state controller kind, governor kind, #controllers, \
      same/other DID, alias controller already listed)",
   );
-  let n = ((if args.thorough { 40_000u64 } else { 1_600 }) * scale / 1000 / args.nshards.max(1)).max(8);
+  let n = ((if args.thorough { 400_000u64 } else { 1_600 }) * scale / 1000 / args.nshards.max(1)).max(8);
   let mut rng = args.rng(1414);
   for i in 0..n {
     rep.eval();
